@@ -222,7 +222,7 @@ class Container:
             self.td = big._get_sub_tensordict(slice(1, 3))
             self.extra = leaves_of(big, "src:")
         elif kind == "tensorclass":
-            inner = build_plain(bs, layout, self.cnt, rng, True, zf)
+            inner = build_plain(bs, "contiguous" if layout == "nontensor" else layout, self.cnt, rng, True, zf)   # the class has no field for the extra non-tensor entry
             self.td = tc_class().from_tensordict(inner)
         elif kind == "memmap":
             inner = build_plain(bs, "contiguous" if layout not in ("zero_feat", "zero_batch") else layout, self.cnt, rng, True, False)
